@@ -129,6 +129,45 @@ func usable(s mangos.Socket) string {
 	return ""
 }
 
+// stolen: after a refused Device(s, _), messages arriving on s must still reach s's owner -- all of them.
+func stolen(s mangos.Socket, name string) string {
+	peerOf := map[string]string{"xpair": "pair", "xpair1": "pair1", "xpull": "push", "xsub": "pub", "xbus": "bus", "xstar": "star",
+		"xrep": "req", "xrespondent": "surveyor",
+		"pair": "pair", "pair1": "pair1", "pull": "push", "sub": "pub", "bus": "bus", "star": "star"}
+	pn, ok := peerOf[name]
+	if !ok {
+		return ""
+	}
+	peer := wire.New(pn)
+	defer peer.Close()
+	if name == "sub" || name == "xsub" {
+		_ = s.SetOption(mangos.OptionSubscribe, []byte{})
+	}
+	ad := wire.Addr("inproc")
+	if s.Listen(ad) != nil || peer.Dial(ad) != nil {
+		return ""
+	}
+	time.Sleep(5 * time.Millisecond)
+	_ = s.SetOption(mangos.OptionRecvDeadline, 150*time.Millisecond)
+	_ = peer.SetOption(mangos.OptionSendDeadline, 150*time.Millisecond)
+	_ = peer.SetOption(mangos.OptionRetryTime, time.Duration(0))
+	got := 0
+	const n = 6
+	for i := 0; i < n; i++ {
+		if peer.Send([]byte("ping")) != nil {
+			return "" // could not even send: nothing to conclude
+		}
+		if m, err := s.RecvMsg(); err == nil {
+			got++
+			m.Free()
+		}
+	}
+	if got < n {
+		return fmt.Sprintf("+stolen(%d of %d messages sent to the first socket reached its owner)", got, n)
+	}
+	return ""
+}
+
 func unsupportedCases() []string {
 	var out []string
 	quick := func(s mangos.Socket) {
@@ -187,6 +226,9 @@ func unsupportedCases() []string {
 		}
 		r := guarded(func() error { return mangos.Device(sa, sb) })
 		se := ""
+		if r != "ok" && sa != nil {
+			se = stolen(sa, a) // a refused Device must not have left a forwarder draining the first socket
+		}
 		for _, s := range []mangos.Socket{sa, sb} {
 			if s == nil {
 				continue
